@@ -4,7 +4,12 @@ import json, os
 V = os.path.dirname(os.path.dirname(os.path.abspath(__file__)))
 props = [json.loads(l) for l in open(os.path.join(V, "properties.jsonl"))]
 
+EVAL_NOTE = "trusted: TLC; the renderer's canonical layout and path->line map; H2 hook events (emitted after each VM state change in the single evaluator goroutine); program families are bounded (sizes in the evidence)"
 CHECKS = {
+ "C02": dict(
+   technique="TLA+ evaluator state machine (ZnEval: Compile to instructions + frame/scope/heap machine) model-checked by TLC over exhaustive control-flow skeleton families; TLC-emitted behaviours (statement trace, display trace, result) compared event-by-event with H2-hooked executions of the real interpreter",
+   level="Every control skeleton over {mark, if/elseif/else, while, iterate over list/dict with 0/1/2 names, break, continue, return} up to size 4 (5 thorough) with nesting<=3, plus a seeded sample of the next size, is run at top level and inside a method through the ZnEval machine by TLC (all invariants in every state); the real interpreter must execute exactly the same statements in the same order at the same call depth (H2 line events), display the same values and return the same result.",
+   note=EVAL_NOTE, ref="5 C02"),
  "C01": dict(
    technique="TLA+ expression machine (ZnExpr: precedence table, minimal-brace renderer, reference evaluator, stack machine with short-circuit jumps) model-checked with TLC; TLC-generated trees/expected outcomes replayed through Interpreter.Execute in several spellings",
    level="TLC enumerates every operator on every ordered pair of 16 leaves and all 4096 ordered operator triples in all 5 tree shapes (plus random depth-4 trees in the thorough tier), checks on the spec that the instruction machine agrees with the reference evaluator in every terminal state, and emits each tree with its minimal-brace token list, expected value or error and probe (evaluation) order; the real interpreter must reproduce each of them in 3-8 concrete spellings.",
